@@ -207,12 +207,24 @@ structure GoodMap (tr : Trans) (n m : Nat) : Prop where
   defd : ∀ i, i ≤ n → ∃ d, tr.s2d i = some d ∧ d ≤ m ∧ tr.d2s (d : Nat) = (i : Nat)
   mono : ∀ i j di dj, i < j → j ≤ n → tr.s2d i = some di → tr.s2d j = some dj → di < dj
 
+mutual
+/-- tab stops are at least 1, also inside conditional and nested processors -/
 def ProcOK : Proc → Prop
   | .tabs ts _ _ => 1 ≤ ts
+  | .cond _ p => ProcOK p
+  | .group ps => ProcsOK ps
   | _ => True
+def ProcsOK : List Proc → Prop
+  | [] => True
+  | p :: ps => ProcOK p ∧ ProcsOK ps
+end
 
-theorem goodMap_id (t : Text) (extra : Nat) :
-    GoodMap { frags := t, s2d := some, d2s := id } n (n + extra) :=
+theorem procsOK_iff (ps : List Proc) : ProcsOK ps ↔ ∀ p ∈ ps, ProcOK p := by
+  induction ps with
+  | nil => simp [ProcsOK]
+  | cons p ps ih => simp [ProcsOK, ih]
+
+theorem goodMap_id (t : Text) (extra : Nat) : GoodMap (idTrans t) n (n + extra) :=
   ⟨fun i hi => ⟨i, rfl, by omega, rfl⟩, fun i j di dj h _ h1 h2 => by cases h1; cases h2; exact h⟩
 
 theorem tabsMap_last (ts : Nat) (line : Text) : (tabsMap ts line)[line.length]? = some (tabsEnd ts line 0) := by
@@ -223,70 +235,67 @@ theorem tabsMap_last (ts : Nat) (line : Text) : (tabsMap ts line)[line.length]? 
   unfold tabsMap
   rw [List.getElem?_append_right (by rw [this]; exact Nat.le_refl _), this]; simp
 
-/-- **BeforeInput shift** and every single processor: good position maps -/
-theorem applyProc_good (l lc : Nat) (p : Proc) (hp : ProcOK p) (t : Text) :
-    GoodMap (applyProc l lc p t) t.length (applyProc l lc p t).frags.length := by
-  cases p with
-  | tabs ts c1 c2 =>
-    have hts : 1 ≤ ts := hp
-    have hs := tabs_mono ts hts t
-    have hlen := tabsMap_length ts t
-    have hfr : (tabsOut ts c1 c2 t 0).length = tabsEnd ts t 0 := (tabs_shows ts hts c1 c2 t).1
-    have hlast := tabsMap_last ts t
-    constructor
-    · intro i hi
-      obtain ⟨d, h1, h2⟩ := tabs_roundtrip ts hts t i (by omega)
-      refine ⟨d, h1, ?_, h2⟩
-      show d ≤ (tabsOut ts c1 c2 t 0).length
-      rw [hfr]
-      rcases Nat.lt_or_ge i t.length with hlt | hge
-      · have h3 : (tabsMap ts t)[i]'(by omega) = d := by
-          have := List.getElem?_eq_getElem (l := tabsMap ts t) (i := i) (by omega)
-          rw [this] at h1; exact Option.some.inj h1
-        have h4 : (tabsMap ts t)[t.length]'(by omega) = tabsEnd ts t 0 := by
-          have := List.getElem?_eq_getElem (l := tabsMap ts t) (i := t.length) (by omega)
-          rw [this] at hlast; exact Option.some.inj hlast
-        have := List.pairwise_iff_getElem.mp hs i t.length (by omega) (by omega) hlt
-        omega
-      · have : i = t.length := by omega
-        subst this
-        have h1' : (tabsMap ts t)[t.length]? = some d := h1
-        rw [hlast] at h1'; cases h1'; exact Nat.le_refl _
-    · intro i j di dj hij hj h1 h2
-      have h1' : (tabsMap ts t)[i]? = some di := h1
-      have h2' : (tabsMap ts t)[j]? = some dj := h2
-      have hi' : i < (tabsMap ts t).length := by omega
-      have hj' : j < (tabsMap ts t).length := by omega
-      rw [List.getElem?_eq_getElem hi'] at h1'
-      rw [List.getElem?_eq_getElem hj'] at h2'
-      have := List.pairwise_iff_getElem.mp hs i j hi' hj' hij
-      cases h1'; cases h2'; exact this
-  | before b =>
-    by_cases hl : l = 0
-    · simp only [applyProc, hl, if_true]
-      constructor
-      · intro i hi
-        refine ⟨i + b.length, rfl, by simp; omega, ?_⟩
-        show ((i + b.length : Nat) : Int) - b.length = i
-        push_cast; omega
-      · intro i j di dj hij _ h1 h2
-        have h1' : some (i + b.length) = some di := h1
-        have h2' : some (j + b.length) = some dj := h2
-        cases h1'; cases h2'; omega
-    · simp only [applyProc, hl, if_false]
-      have := goodMap_id (n := t.length) t 0
-      simpa using this
-  | after a =>
-    by_cases hl : l + 1 = lc
-    · simp only [applyProc, hl, if_true]
-      have := goodMap_id (n := t.length) (t ++ a) a.length
-      simpa using this
-    · simp only [applyProc, hl, if_false]
-      have := goodMap_id (n := t.length) t 0
-      simpa using this
-  | password c =>
-    have := goodMap_id (n := t.length) (t.map fun _ => c) 0
-    simpa [applyProc] using this
+/-! ### processors that REPLACE characters keep the length, so their identity maps stay right -/
+
+theorem leadingOut_length (c : Char) (t : Text) : (leadingOut c t).length = t.length := by
+  unfold leadingOut
+  rw [List.length_append, List.length_map, ← List.length_append, List.takeWhile_append_dropWhile]
+
+theorem trailingOut_length (c : Char) (t : Text) : (trailingOut c t).length = t.length := by
+  unfold trailingOut
+  rw [List.length_reverse, leadingOut_length, List.length_reverse]
+
+/-- ShowLeadingWhiteSpace only touches the leading blanks: every other cell keeps its character -/
+theorem leadingOut_get (c : Char) (t : Text) (i : Nat) (hi : (t.takeWhile isSp).length ≤ i) :
+    (leadingOut c t)[i]? = t[i]? := by
+  unfold leadingOut
+  rw [List.getElem?_append_right (by simpa using hi)]
+  simp only [List.length_map]
+  conv => rhs; rw [← List.takeWhile_append_dropWhile (p := isSp) (l := t)]
+  rw [List.getElem?_append_right hi]
+
+/-- ... and a leading blank is shown as `c` -/
+theorem leadingOut_blank (c : Char) (t : Text) (i : Nat) (hi : i < (t.takeWhile isSp).length) :
+    (leadingOut c t)[i]? = some c := by
+  unfold leadingOut
+  rw [List.getElem?_append_left (by simpa using hi)]
+  simp [hi]
+
+theorem applyProc_tabs_good (l lc ts : Nat) (c1 c2 : Char) (hts : 1 ≤ ts) (t : Text) :
+    GoodMap (applyProc l lc (.tabs ts c1 c2) t) t.length (applyProc l lc (.tabs ts c1 c2) t).frags.length := by
+  have hs := tabs_mono ts hts t
+  have hlen := tabsMap_length ts t
+  have hfr : (tabsOut ts c1 c2 t 0).length = tabsEnd ts t 0 := (tabs_shows ts hts c1 c2 t).1
+  have hlast := tabsMap_last ts t
+  unfold applyProc
+  constructor
+  · intro i hi
+    obtain ⟨d, h1, h2⟩ := tabs_roundtrip ts hts t i (by omega)
+    refine ⟨d, h1, ?_, h2⟩
+    show d ≤ (tabsOut ts c1 c2 t 0).length
+    rw [hfr]
+    rcases Nat.lt_or_ge i t.length with hlt | hge
+    · have h3 : (tabsMap ts t)[i]'(by omega) = d := by
+        have := List.getElem?_eq_getElem (l := tabsMap ts t) (i := i) (by omega)
+        rw [this] at h1; exact Option.some.inj h1
+      have h4 : (tabsMap ts t)[t.length]'(by omega) = tabsEnd ts t 0 := by
+        have := List.getElem?_eq_getElem (l := tabsMap ts t) (i := t.length) (by omega)
+        rw [this] at hlast; exact Option.some.inj hlast
+      have := List.pairwise_iff_getElem.mp hs i t.length (by omega) (by omega) hlt
+      omega
+    · have : i = t.length := by omega
+      subst this
+      have h1' : (tabsMap ts t)[t.length]? = some d := h1
+      rw [hlast] at h1'; cases h1'; exact Nat.le_refl _
+  · intro i j di dj hij hj h1 h2
+    have h1' : (tabsMap ts t)[i]? = some di := h1
+    have h2' : (tabsMap ts t)[j]? = some dj := h2
+    have hi' : i < (tabsMap ts t).length := by omega
+    have hj' : j < (tabsMap ts t).length := by omega
+    rw [List.getElem?_eq_getElem hi'] at h1'
+    rw [List.getElem?_eq_getElem hj'] at h2'
+    have := List.pairwise_iff_getElem.mp hs i j hi' hj' hij
+    cases h1'; cases h2'; exact this
 
 theorem goodMap_comp (a r : Trans) (fr : Text) (n m k : Nat) (ha : GoodMap a n m) (hr : GoodMap r m k) :
     GoodMap { frags := fr, s2d := fun i => (a.s2d i).bind r.s2d, d2s := fun j => a.d2s (r.d2s j) } n k := by
@@ -303,17 +312,170 @@ theorem goodMap_comp (a r : Trans) (fr : Text) (n m k : Nat) (ha : GoodMap a n m
     rw [a1] at h1'; rw [b1] at h2'
     exact hr.mono ei ej di dj (ha.mono i j ei ej hij hj a1 b1) b2 h1' h2'
 
-/-- **merged_compose** : the merged processor (any list of Tabs / BeforeInput / AfterInput /
-    Password processors, tab stops ≥ 1) has good position maps from the source line to the final
-    fragments: round trip, strictly increasing, inside the processed line -/
+mutual
+/-- **every single processor has good position maps** (BeforeInput shift, tab expansion, the
+    length-preserving replacements with identity maps, conditional / dynamic wrappers, nested merges) -/
+theorem applyProc_good (l lc : Nat) : ∀ (p : Proc), ProcOK p → ∀ (t : Text),
+    GoodMap (applyProc l lc p t) t.length (applyProc l lc p t).frags.length
+  | .tabs ts c1 c2, hp, t => applyProc_tabs_good l lc ts c1 c2 hp t
+  | .before b, _, t => by
+    unfold applyProc
+    by_cases hl : l = 0
+    · simp only [hl, if_true]
+      constructor
+      · intro i hi
+        refine ⟨i + b.length, rfl, by simp; omega, ?_⟩
+        show ((i + b.length : Nat) : Int) - b.length = i
+        push_cast; omega
+      · intro i j di dj hij _ h1 h2
+        have h1' : some (i + b.length) = some di := h1
+        have h2' : some (j + b.length) = some dj := h2
+        cases h1'; cases h2'; omega
+    · simp only [hl, if_false]
+      have := goodMap_id (n := t.length) t 0
+      simpa [idTrans] using this
+  | .after a, _, t => by
+    unfold applyProc
+    by_cases hl : l + 1 = lc
+    · simp only [hl, if_true]
+      have := goodMap_id (n := t.length) (t ++ a) a.length
+      simpa [idTrans] using this
+    · simp only [hl, if_false]
+      have := goodMap_id (n := t.length) t 0
+      simpa [idTrans] using this
+  | .password c, _, t => by
+    unfold applyProc
+    have := goodMap_id (n := t.length) (t.map fun _ => c) 0
+    simpa [idTrans] using this
+  | .leading c, _, t => by
+    unfold applyProc
+    have := goodMap_id (n := t.length) (leadingOut c t) 0
+    simpa [idTrans, leadingOut_length] using this
+  | .trailing c, _, t => by
+    unfold applyProc
+    have := goodMap_id (n := t.length) (trailingOut c t) 0
+    simpa [idTrans, trailingOut_length] using this
+  | .ident, _, t => by
+    unfold applyProc
+    have := goodMap_id (n := t.length) t 0
+    simpa [idTrans] using this
+  | .cond b p, hp, t => by
+    unfold applyProc
+    cases b with
+    | true => simpa using applyProc_good l lc p (by simpa [ProcOK] using hp) t
+    | false =>
+      have := goodMap_id (n := t.length) t 0
+      simpa [idTrans] using this
+  | .group ps, hp, t => by
+    unfold applyProc
+    exact merged_good' l lc ps (by simpa [ProcOK] using hp) t
+
+theorem merged_good' (l lc : Nat) : ∀ (ps : List Proc), ProcsOK ps → ∀ t : Text,
+    GoodMap (merged l lc ps t) t.length (merged l lc ps t).frags.length
+  | [], _, t => by
+    unfold merged
+    have := goodMap_id (n := t.length) t 0
+    simpa [idTrans] using this
+  | p :: ps, hps, t => by
+    unfold merged
+    have h1 := applyProc_good l lc p hps.1 t
+    have h2 := merged_good' l lc ps hps.2 (applyProc l lc p t).frags
+    exact goodMap_comp _ _ _ _ _ _ h1 h2
+end
+
+/-- **merged_compose** : the merged processor (any list of Tabs / BeforeInput / AfterInput / Password /
+    ShowLeading- / ShowTrailingWhiteSpace / restyling / conditional / dynamic / nested merged processors,
+    tab stops ≥ 1) has good position maps from the source line to the final fragments: round trip,
+    strictly increasing, inside the processed line -/
 theorem merged_good (l lc : Nat) (ps : List Proc) (hps : ∀ p ∈ ps, ProcOK p) :
-    ∀ t : Text, GoodMap (merged l lc ps t) t.length (merged l lc ps t).frags.length := by
+    ∀ t : Text, GoodMap (merged l lc ps t) t.length (merged l lc ps t).frags.length :=
+  merged_good' l lc ps ((procsOK_iff ps).mpr hps)
+
+/-! ### the composition law for n processors, abstractly -/
+
+/-- any processor, as a function from the incoming text to a transformation -/
+abbrev AProc := Text → Trans
+
+/-- `_MergedProcessor` over arbitrary processors: applied in order, `source_to_display` composed in
+    order, `display_to_source` composed in REVERSE order -/
+def mergedT : List AProc → AProc
+  | [], t => idTrans t
+  | p :: ps, t =>
+    let a := p t
+    let r := mergedT ps a.frags
+    { frags := r.frags, s2d := fun i => (a.s2d i).bind r.s2d, d2s := fun j => a.d2s (r.d2s j) }
+
+/-- a processor whose maps are good on every input -/
+def AGood (p : AProc) : Prop := ∀ t, GoodMap (p t) t.length (p t).frags.length
+
+/-- **the composition law** : for ANY list of processors with monotone round-tripping position maps,
+    the merged processor has monotone round-tripping position maps — whatever the processors do to
+    the text -/
+theorem mergedT_good (ps : List AProc) (h : ∀ p ∈ ps, AGood p) : AGood (mergedT ps) := by
   induction ps with
-  | nil => intro t; have := goodMap_id (n := t.length) t 0; simpa [merged] using this
+  | nil =>
+    intro t
+    have := goodMap_id (n := t.length) t 0
+    simpa [mergedT, idTrans] using this
   | cons p ps ih =>
     intro t
-    have h1 := applyProc_good l lc p (hps p (by simp)) t
-    have h2 := ih (fun q hq => hps q (by simp [hq])) (applyProc l lc p t).frags
-    exact goodMap_comp _ _ _ _ _ _ h1 h2
+    exact goodMap_comp _ _ _ _ _ _ (h p (by simp) t) (ih (fun q hq => h q (by simp [hq])) (p t).frags)
+
+/-- the concrete `_MergedProcessor` model is the abstract one over the modelled processors -/
+theorem merged_eq_mergedT (l lc : Nat) (ps : List Proc) (t : Text) :
+    merged l lc ps t = mergedT (ps.map (applyProc l lc)) t := by
+  induction ps generalizing t with
+  | nil => simp [merged, mergedT]
+  | cons p ps ih => simp only [merged, mergedT, List.map_cons, ih]
+
+/-- extensional equality of transformations -/
+def Trans.Same (a b : Trans) : Prop := a.frags = b.frags ∧ (∀ i, a.s2d i = b.s2d i) ∧ ∀ j, a.d2s j = b.d2s j
+
+/-- **nesting is flattening** : a merged processor used as ONE element of another merge behaves like
+    its elements spliced into the outer list (fragments and both position maps) -/
+theorem mergedT_append (ps qs : List AProc) (t : Text) :
+    Trans.Same (mergedT (ps ++ qs) t) (mergedT [mergedT ps, mergedT qs] t) := by
+  induction ps generalizing t with
+  | nil =>
+    refine ⟨by simp [mergedT, idTrans], fun i => ?_, fun j => by simp [mergedT, idTrans]⟩
+    simp only [mergedT, idTrans, List.nil_append, Option.bind_some]
+    cases (mergedT qs t).s2d i <;> rfl
+  | cons p ps ih =>
+    obtain ⟨h1, h2, h3⟩ := ih (p t).frags
+    refine ⟨?_, fun i => ?_, fun j => ?_⟩
+    · simpa [mergedT, idTrans] using h1
+    · simp only [mergedT, idTrans, List.cons_append] at h2 ⊢
+      cases hp : (p t).s2d i with
+      | none => simp
+      | some d =>
+        simp only [Option.bind_some]
+        rw [h2 d]
+    · simp only [mergedT, idTrans, List.cons_append] at h3 ⊢
+      rw [h3 j]
+
+theorem mergedT_nested (ps qs rs : List AProc) (t : Text) :
+    Trans.Same (mergedT (ps ++ [mergedT qs] ++ rs) t) (mergedT (ps ++ qs ++ rs) t) := by
+  induction ps generalizing t with
+  | nil =>
+    simp only [List.nil_append]
+    have h := mergedT_append qs rs t
+    obtain ⟨h1, h2, h3⟩ := h
+    refine ⟨?_, fun i => ?_, fun j => ?_⟩
+    · rw [h1]; simp [mergedT, idTrans]
+    · rw [h2 i]
+      simp only [mergedT, idTrans, List.cons_append, List.nil_append]
+      cases (mergedT qs t).s2d i with
+      | none => rfl
+      | some d => simp only [Option.bind_some]; cases (mergedT rs (mergedT qs t).frags).s2d d <;> rfl
+    · rw [h3 j]; simp [mergedT, idTrans]
+  | cons p ps ih =>
+    obtain ⟨h1, h2, h3⟩ := ih (p t).frags
+    refine ⟨by simpa [mergedT] using h1, fun i => ?_, fun j => ?_⟩
+    · simp only [mergedT, List.cons_append] at h2 ⊢
+      cases (p t).s2d i with
+      | none => rfl
+      | some d => simp only [Option.bind_some]; exact h2 d
+    · simp only [mergedT, List.cons_append] at h3 ⊢
+      rw [h3 j]
 
 end Ptk.C11
